@@ -276,15 +276,32 @@ func (s *Store) heldBySurvivor(ctx context.Context, node ocispec.Descriptor, que
 // delete deletes one node and returns the dangling nodes caused by the delete.
 func (s *Store) delete(ctx context.Context, target ocispec.Descriptor) ([]ocispec.Descriptor, error) {
 	resolvers := s.tagResolver.Map()
-	untagged := false
+	indexChanged := false
 	for reference, desc := range resolvers {
 		if content.Equal(desc, target) {
 			s.tagResolver.Untag(reference)
-			untagged = true
+			indexChanged = true
 		}
 	}
 	danglings := s.graph.Remove(target)
-	if untagged && s.AutoSaveIndex {
+	// a manifest that loses its last predecessor stays listed in the index by
+	// its digest until it is deleted itself: a layout whose index.json names
+	// only the top-level manifests (as written by other tools) would otherwise
+	// lose track of the stored manifest once the store is loaded again
+	for _, dangling := range danglings {
+		if !descriptor.IsManifest(dangling) {
+			continue
+		}
+		ref := dangling.Digest.String()
+		if _, err := s.tagResolver.Resolve(ctx, ref); err == nil {
+			continue
+		}
+		if err := s.tagResolver.Tag(ctx, deleteAnnotationRefName(dangling), ref); err != nil {
+			return nil, err
+		}
+		indexChanged = true
+	}
+	if indexChanged && s.AutoSaveIndex {
 		err := s.saveIndex()
 		if err != nil {
 			return nil, err
